@@ -21,6 +21,9 @@
 import NemoVerif.Lemmas.SlideGraph
 import NemoVerif.Lemmas.ErrContain
 import NemoVerif.Lemmas.RoundMachine
+import NemoVerif.Lemmas.SlideGraphComplete
+import NemoVerif.Lemmas.ErrFrameAdvVM
+import NemoVerif.Lemmas.SlideStepVM
 
 namespace NemoVerif.C10
 open NemoVerif.SlideGraph NemoVerif.ErrContain NemoVerif.RoundMachine
@@ -72,6 +75,16 @@ theorem slide_bound_exact (p : Prog) (hac : SlideAcyclic p) (h : Head) (hc : Cat
 theorem slideAcyclic_sound (p : Prog) (h : slideAcyclic p = true) : SlideAcyclic p :=
   checkRank_sound h
 
+/-- **checker completeness** (phase 4): an acyclic sliding graph is ALWAYS accepted — the verified checker never rejects a flow
+    whose loops all contain a waiting statement (no false alarm by construction; `Wit`/`Low` invariants of the Gauss–Seidel
+    sweeps, `Lemmas/SlideGraphComplete.lean`). -/
+theorem slideAcyclic_complete (p : Prog) (h : SlideAcyclic p) : slideAcyclic p = true :=
+  NemoVerif.SlideGraph.slideAcyclic_complete p h
+
+/-- the checker DECIDES acyclicity of the sliding graph -/
+theorem slideAcyclic_iff (p : Prog) : slideAcyclic p = true ↔ SlideAcyclic p :=
+  NemoVerif.SlideGraph.slideAcyclic_iff p
+
 /-- Corollary used by the harness: checker says yes ⇒ every `slide` call on that flow is bounded. -/
 theorem checked_flow_slide_terminates (p : Prog) (hck : slideAcyclic p = true) (h : Head) (hc : CatchOk p h)
     (o : Nat → Ans) (k : Nat) : (slide p o (p.length + 1) k h).stop ≠ none :=
@@ -114,6 +127,8 @@ example : slideRanked whenShape = true := by decide
 /-- non-vacuity: `while $c: (match …)`-shaped flow — label, goto-out, WAIT, goto-back, label — is accepted -/
 def loopWithWait : Prog := [.step false, .goto (some 4), .wait false, .goto (some 0), .step false]
 example : slideAcyclic loopWithWait = true := by decide
+/-- non-vacuity of `slideAcyclic_complete`: a loop WITH a wait is acyclic -/
+example : SlideAcyclic loopWithWait := slideAcyclic_sound _ (by decide)
 example : CatchOk loopWithWait { pos := 0, cstack := [] } := by intro t ht; simp at ht
 
 /-- witness that the hypothesis is needed: `while True: $x = 1` (no waiting statement) is rejected by the checker
@@ -391,3 +406,233 @@ def guardedProg : RProg :=
 example : roundRanked guardedProg = true := by decide +kernel
 
 end NemoVerif.C10
+
+namespace NemoVerif.C10.VM
+open NemoVerif NemoVerif.CoreIndex NemoVerif.CoreVM
+
+/-! ## Error containment on the whole-interpreter model `CoreVM` (Models/CoreVM/*, built under C09)
+
+  `M = EStateM VMErr VM`; a result is `.ok a s'` (normal return), `.error (.py cls msg) s'` (a Python-level exception leaves
+  the function, with the state at the moment of the raise), `.error .outOfFuel s'` (says nothing about Python, kept apart),
+  `.error (.unsupported _) s'` / `.error (.guardFailed _) s'` (the model stops).  `outState r` = the state of a result. -/
+
+/-- `try: … except Exception` of the model (`attemptPy`, used around `slide` + fork recursion, around the second half of the
+    try block of `_advance_head_front`, and around `_compute_event_matching_score` in the candidate scan): whatever the
+    guarded computation does, no Python-level exception leaves it — for every computation and every state. -/
+theorem vm_try_never_propagates {α : Type} (x : M α) (s s' : VM) (c m : String) :
+    attemptPy x s ≠ .error (.py c m) s' := attemptPy_never_py x s s' c m
+
+/-- … it is turned into a value, and the state is the one at the moment of the raise (nothing is rolled back) -/
+theorem vm_try_catches {α : Type} (x : M α) (s s' : VM) (c m : String) (h : x s = .error (.py c m) s') :
+    attemptPy x s = .ok (.error (c, m)) s' := attemptPy_of_py h
+
+
+/-- **the `except` branch of `_advance_head_front`, as an equation.**  One ACTIVE head `k` of a listening instance is advanced;
+    after `head.position += 1` (and WAITING → STARTING) the first part of the try block — `slide` plus the recursion into freshly
+    forked heads — raises `cls: msg` in state `s2`, the head still standing on an element (`hpos`).  Then the whole call IS the
+    handler run from `s2`: push `ColangError(type=cls, error=msg)`, (an activated flow that was still STARTING is marked so that
+    it is not restarted), `_abort_flow(deactivate_flow=False)`, nothing handed back. -/
+theorem vm_except_branch (fuel : Nat) (k : Key) (s s1 s2 : VM) (i : Inst) (hd hd2 : Head) (cfg : FlowCfg) (c m : String)
+    (starting : Bool)
+    (hi : findInst s.ixs.ix k.1 = some i) (hl : i.status.listening = true)
+    (hcfg : cfgOfInst k.1 s = .ok cfg s)
+    (hhd : i.findHead k.2 = some hd) (hact : hd.status = .active)
+    (hpre : (do
+        setHeadPos k (hd.pos + 1)
+        if (← getInst k.1).status = FlowStatus.waiting then setFlowStatus k.1 FlowStatus.starting
+        pure (decide ((← getInst k.1).status = FlowStatus.starting))) s = .ok starting s1)
+    (hraise : (do
+        let newHeads ← slide fuel k.1 k.2
+        if newHeads.isEmpty then pure [] else advanceHeadFront fuel newHeads) s1 = .error (.py c m) s2)
+    (hhd2 : (findInst s2.ixs.ix k.1).bind (·.findHead k.2) = some hd2) (hpos : hd2.pos < cfg.elements.size) :
+    advanceHeadFront (fuel + 1) [k] s = errHandler fuel k c m starting s2 :=
+  advance_error_path fuel k s s1 s2 i hd hd2 cfg c m starting hi hl hcfg hhd hact hpre hraise hhd2 hpos
+
+/-- **`error_contained` on CoreVM** (same hypotheses, one more unit of fuel so that `_abort_flow` can run).
+    (1) Whatever the result of `_advance_head_front`, the `ColangError` event is in the queue of the final state.
+    (2) On normal return nothing is handed back for the faulty head, nothing that was queued when the exception was raised is
+        lost, no instance disappeared, and — if the faulty instance was still listening or STOPPING when the exception was
+        raised — it ends STOPPED (FAILED) without heads with its `FlowFailed` event queued.
+    (3) PROVENANCE: if anything but a normal return leaves `_advance_head_front`, it was raised by `_abort_flow` itself (its
+        clean-up of child flows / actions / the parent link) or by the handler's look-up of the faulty flow's own record — never
+        by the faulty statement.  [`outOfFuel` included: it can only come out of `_abort_flow`'s recursion.] -/
+theorem vm_error_contained (fuel : Nat) (k : Key) (s s1 s2 : VM) (i : Inst) (hd hd2 : Head) (cfg : FlowCfg) (c m : String)
+    (starting : Bool)
+    (hi : findInst s.ixs.ix k.1 = some i) (hl : i.status.listening = true)
+    (hcfg : cfgOfInst k.1 s = .ok cfg s)
+    (hhd : i.findHead k.2 = some hd) (hact : hd.status = .active)
+    (hpre : (do
+        setHeadPos k (hd.pos + 1)
+        if (← getInst k.1).status = FlowStatus.waiting then setFlowStatus k.1 FlowStatus.starting
+        pure (decide ((← getInst k.1).status = FlowStatus.starting))) s = .ok starting s1)
+    (hraise : (do
+        let newHeads ← slide (fuel + 1) k.1 k.2
+        if newHeads.isEmpty then pure [] else advanceHeadFront (fuel + 1) newHeads) s1 = .error (.py c m) s2)
+    (hhd2 : (findInst s2.ixs.ix k.1).bind (·.findHead k.2) = some hd2) (hpos : hd2.pos < cfg.elements.size) :
+    colangErrorEvent c m ∈ (outState (advanceHeadFront (fuel + 2) [k] s)).r.queue ∧
+    (∀ r s', advanceHeadFront (fuel + 2) [k] s = .ok r s' →
+      r = [] ∧ Ext s2 s' ∧
+      ∀ i2, findInst s2.ixs.ix k.1 = some i2 → (i2.status.listening = true ∨ i2.status = .stopping) →
+        ∃ sc, Aborted k.1 sc s') ∧
+    (∀ e s', advanceHeadFront (fuel + 2) [k] s = .error e s' →
+      (∃ s3 sc, Ext s2 s3 ∧ s3.ixs = s2.ixs ∧ abortFlow (fuel + 1) k.1 sc false s3 = .error e s') ∨
+      errPrefix k c m starting s2 = .error e s') := by
+  have heq := advance_error_path (fuel + 1) k s s1 s2 i hd hd2 cfg c m starting hi hl hcfg hhd hact hpre hraise hhd2 hpos
+  refine ⟨?_, ?_, ?_⟩
+  · rw [heq]; exact errHandler_queues _ k c m starting s2
+  · intro r s' h; rw [heq] at h; exact errHandler_ok fuel k c m starting s2 s' r h
+  · intro e s' h; rw [heq] at h; exact errHandler_error (fuel + 1) k c m starting s2 s' e h
+
+/-- **post-condition of `_abort_flow(deactivate_flow=False)`** on an instance that is listening or STOPPING: every normal
+    return leaves it STOPPED without heads, its `FlowFailed` internal event (with the given matching scores) queued. -/
+theorem vm_abort_postcondition (fuel : Nat) (f : FUid) (sc : List Score) (s s' : VM) (i : Inst)
+    (hi : findInst s.ixs.ix f = some i) (hl : i.status.listening = true ∨ i.status = .stopping)
+    (h : abortFlow (fuel + 1) f sc false s = .ok () s') : Aborted f sc s' :=
+  abortFlow_aborts fuel f sc s s' i hi hl h
+
+/-- `_abort_flow` (any `deactivate_flow`, full recursion into child flows, action clean-up), on normal return AND when an
+    exception leaves it: nothing that is queued is lost (events are only added), no instance disappears, the program is kept -/
+theorem vm_abort_keeps_queue_and_instances (fuel : Nat) (f : FUid) (sc : List Score) (d : Bool) (s : VM) :
+    Ext s (outState (abortFlow fuel f sc d s)) := (Ext.abortFlow fuel f sc d).app s
+
+/-- evaluating an expression, building an event from an element and computing a matching score never change the state
+    (only the uid counter can move) — also when they raise.  With `vm_try_never_propagates` this is the matching-phase part:
+    a candidate whose match statement raises leaves no trace but the `ColangError` the scan pushes. -/
+theorem vm_evaluation_read_only (f : FUid) (e : Expr) (sp : Spec) (ev : Event) (b : Bool) (s : VM) :
+    Same s (outState (evalIn f e s)) ∧ Same s (outState (getEvent f sp b s)) ∧ Same s (outState (eventMatchingScore f sp ev s)) :=
+  ⟨(Same.evalIn f e).app s, (Same.getEvent f sp b).app s, (Same.eventMatchingScore f sp ev).app s⟩
+
+/-! ### frame: a family `G` of instances closed under child / scope flows, owning its contexts -/
+
+/-- `_abort_flow` on a member of `G` — any `deactivate_flow`, any outcome — leaves every instance outside `G` untouched: same
+    status, heads, positions, head data (scores, catch labels, scopes), same record (context, arguments, activation, scopes,
+    actions …) except that a child list may lose entries (`parent.child_flow_uids.remove`); and `G` stays closed. -/
+theorem vm_abort_frame (G : FUid → Prop) (fuel : Nat) (f : FUid) (sc : List Score) (d : Bool) (hG : G f) (s : VM)
+    (hc : Closed G s) :
+    Closed G (outState (abortFlow fuel f sc d s)) ∧ FrameOut G s (outState (abortFlow fuel f sc d s)) :=
+  (Fr.abortFlow fuel f sc d hG).app s hc
+
+/-- the same for `_finish_flow` -/
+theorem vm_finish_frame (G : FUid → Prop) (fuel : Nat) (f : FUid) (sc : List Score) (d : Bool) (hG : G f) (s : VM)
+    (hc : Closed G s) :
+    Closed G (outState (finishFlow fuel f sc d s)) ∧ FrameOut G s (outState (finishFlow fuel f sc d s)) :=
+  (Fr.finishFlow fuel f sc d hG).app s hc
+
+/-- the same for `slide` on a head of a member of `G`: all 22 element kinds, expression errors, scope clean-up with its
+    `_abort_flow` calls, forks and merges included — also when an exception leaves `slide` -/
+theorem vm_slide_frame (G : FUid → Prop) (fuel : Nat) (f : FUid) (h : HUid) (hG : G f) (s : VM) (hc : Closed G s) :
+    Closed G (outState (slide fuel f h s)) ∧ FrameOut G s (outState (slide fuel f h s)) :=
+  (Fr.slide fuel f h hG).app s hc
+
+/-- the heads `slide` hands back (forked heads, the merged parent head) are heads of the flow that was slid -/
+theorem vm_slide_returns_own_heads (fuel : Nat) (f : FUid) (h : HUid) (s s' : VM) (r : List Key)
+    (hr : slide fuel f h s = .ok r s') : ∀ k ∈ r, k.1 = f := slide_keys fuel f h s s' r hr
+
+
+/-- **frame theorem for `_advance_head_front` as a whole** (`vm_advance_frame`).  All heads belong to members of `G`; then —
+    skip conditions, `head.position += 1`, WAITING → STARTING, `slide`, the recursion into freshly forked heads, both halves
+    of the try block, the `except` branch, `_finish_flow`, `_abort_flow`, whatever the outcome (normal return, a Python-level
+    exception, fuel) — every instance outside `G` is untouched (`FrameOut`) and `G` stays closed.  This is the "fails only that
+    flow" half of the property on the whole-interpreter model: with `G` = the faulty instance and its descendants, everything
+    else has the same status, heads, head data and context as before the faulty statement was executed — hence the same as in
+    the run in which that statement is replaced by `abort` (which, by the same theorem, also changes nothing outside `G`). -/
+theorem vm_advance_frame (G : FUid → Prop) (fuel : Nat) (heads : List Key) (hH : ∀ k ∈ heads, G k.1) (s : VM)
+    (hc : Closed G s) :
+    Closed G (outState (advanceHeadFront fuel heads s)) ∧ FrameOut G s (outState (advanceHeadFront fuel heads s)) :=
+  (Fr.advanceHeadFront fuel heads hH).app s hc
+
+/-! ### step labelling: CoreVM micro-steps are steps of the abstract models (phase 4, goal 3) -/
+
+/-- one non-stopping iteration of CoreVM's `slide` loop moves the head along an EDGE of the sliding graph of the classified
+    flow (`classify`, the Lean counterpart of `translate/c10.py::classify_flow`), for all 22 element kinds; explicit
+    hypotheses: not `EndScope` (calls `_abort_flow`), on `MergeHeads` the head is ACTIVE, on `Abort` the catch labels on the
+    head's stack are labels of `CatchPatternFailure` elements of the flow.  Hence `slide_terminates` speaks about CoreVM. -/
+theorem corevm_slide_step_is_edge (fuel : Nat) (f : FUid) (h : HUid) (s s' : VM) (cfg : FlowCfg) (hd : Head) (nh : List Key)
+    (hcfg : cfgOfInst f s = .ok cfg s)
+    (hhd : (findInst s.ixs.ix f).bind (·.findHead h) = some hd)
+    (hrun : slideStep fuel f h s = .ok (false, nh) s')
+    (hscope : ∀ n, cfg.elements[hd.pos]? ≠ some (.endScope n))
+    (hmerge : ∀ u, cfg.elements[hd.pos]? = some (.merge u) → hd.status = .active)
+    (hcatch : cfg.elements[hd.pos]? = some .abort → CatchNamesOk cfg ((OMap.lookup (f, h) s.r.hx).getD {})) :
+    ∃ hd', (findInst s'.ixs.ix f).bind (·.findHead h) = some hd' ∧ hd'.status = hd.status ∧
+      cfgOfInst f s' = .ok cfg s' ∧ SlideGraph.Edge (classify cfg) hd.pos hd'.pos :=
+  slideStep_moves_along_edge fuel f h s s' cfg hd nh hcfg hhd hrun hscope hmerge hcatch
+
+/-- when `slide` raises, the head still stands on an element of the flow (the hypothesis `hpos` of `vm_except_branch`;
+    every kind but fork / merge / EndScope): the handler's `flow_config.elements[head.position]` cannot raise IndexError -/
+theorem corevm_slide_error_position (fuel : Nat) (f : FUid) (h : HUid) (s s' : VM) (cfg : FlowCfg) (hd : Head) (c m : String)
+    (hcfg : cfgOfInst f s = .ok cfg s)
+    (hhd : (findInst s.ixs.ix f).bind (·.findHead h) = some hd)
+    (hlt : hd.pos < cfg.elements.size) (hk : (cfg.elements[hd.pos]!).slides = true)
+    (hrun : slideStep fuel f h s = .error (.py c m) s') :
+    ∃ hd', (findInst s'.ixs.ix f).bind (·.findHead h) = some hd' ∧ hd'.status = hd.status ∧
+      cfgOfInst f s' = .ok cfg s' ∧ hd'.pos < cfg.elements.size :=
+  slideStep_error_pos fuel f h s s' cfg hd c m hcfg hhd hlt hk hrun
+
+/-- **`corevm_step_is_machine_step`** (slide iteration, the element kinds without queue effect: assignment, log, print, global,
+    unknown element, goto, break / continue, priority, begin-scope, catch-pattern-failure, return, new action instance, plain
+    label): the CoreVM micro-step maps the token abstraction of the state (`absTokens`: queued events by kind, every non-INACTIVE
+    head of every listening instance) to a permutation of a `RoundMachine.Step` successor.  NOT reached: `send` (needs the emit
+    lists), restart label, wait-for-heads, abort, fork, and the non-slide micro-steps (pop of an internal event, resume) — these
+    remain tied by the replay of recorded real rounds (design_notes/C10.md §Tie 6). -/
+theorem corevm_step_is_machine_step (idx : String → Option Nat) (P : RoundMachine.RProg) (fl : RoundMachine.RFlow) (n fuel : Nat)
+    (f : FUid) (h : HUid) (cfg : FlowCfg) (hd : Head) (i : Inst) (s s' : VM) (b : Bool × List Key)
+    (hcfg : cfgOfInst f s = .ok cfg s) (hi : findInst s.ixs.ix f = some i) (hhd : i.findHead h = some hd)
+    (hlt : hd.pos < cfg.elements.size) (hact : hd.status ≠ .inactive) (hk : (cfg.elements[hd.pos]!).simple = true)
+    (hlisten : i.status.listening = true) (hidx : (OMap.lookup f (fxIds s.r.fx)).bind idx = some n)
+    (hP : P[n]? = some fl) (hctl : fl.ctl = classify cfg) (hemit : fl.emit.getD hd.pos [] = [])
+    (hrun : slideStep fuel f h s = .ok b s') :
+    b = (false, []) ∧ ∃ T', RoundMachine.Step P (absTokens idx s) T' ∧ (absTokens idx s').Perm T' :=
+  corevm_slide_step_is_machine_step idx P fl n fuel f h cfg hd i s s' b hcfg hi hhd hlt hact hk hlisten hidx hP hctl hemit hrun
+
+/-! ### non-vacuity of the CoreVM statements (kernel-evaluated on concrete states) -/
+
+/-- non-vacuity witness: one instance of `flow f: <noop>; $x = boom` (a bare name: NameNotDefined), WAITING, head on element 0 -/
+def demoCfg : FlowCfg :=
+  { id := "f", elements := #[.other, .assign "x" (.name "boom")], labels := [], params := [], returnMembers := [],
+    loopId := none, loopPriority := 0, metaTags := [] }
+def demoIx : IxS := ({} : IxS).apply (.addInst "f" "h" none) (by decide)
+def demoVM : VM :=
+  { ixs := demoIx,
+    r := { prog := ⟨[demoCfg]⟩, fx := [("f", { flowId := "f", loopId := none, hierPos := "0" })], hx := [(("f", "h"), {})] } }
+
+/-- the hypotheses of `vm_except_branch` / `vm_error_contained` hold of a concrete state (evaluated by the kernel) -/
+example : ∃ (i : Inst) (hd hd2 : Head) (s1 s2 : VM) (starting : Bool) (c m : String),
+    findInst demoVM.ixs.ix "f" = some i ∧ i.status.listening = true ∧ cfgOfInst "f" demoVM = .ok demoCfg demoVM ∧
+    i.findHead "h" = some hd ∧ hd.status = .active ∧
+    (do
+        setHeadPos ("f", "h") (hd.pos + 1)
+        if (← getInst "f").status = FlowStatus.waiting then setFlowStatus "f" FlowStatus.starting
+        pure (decide ((← getInst "f").status = FlowStatus.starting))) demoVM = .ok starting s1 ∧
+    (do
+        let newHeads ← slide 3 "f" "h"
+        if newHeads.isEmpty then pure [] else advanceHeadFront 3 newHeads) s1 = .error (.py c m) s2 ∧
+    (findInst s2.ixs.ix "f").bind (·.findHead "h") = some hd2 ∧ hd2.pos < demoCfg.elements.size :=
+  ⟨_, _, _, _, _, _, _, _, rfl, rfl, rfl, rfl, rfl, rfl, rfl, rfl, by decide⟩
+
+/-- … and the conclusion, computed: the call returns normally with nothing handed back -/
+example : ∃ s', advanceHeadFront 4 [("f", "h")] demoVM = .ok [] s' := ⟨_, rfl⟩
+/-- two instances: the faulty `f` and a bystander `g` (same flow config, for brevity) -/
+def demoIx2 : IxS := (({} : IxS).apply (.addInst "f" "h" none) (by decide)).apply (.addInst "g" "h2" none) (by decide)
+def demoVM2 : VM :=
+  { ixs := demoIx2,
+    r := { prog := ⟨[demoCfg]⟩,
+           fx := [("f", { flowId := "f", loopId := none, hierPos := "0" }), ("g", { flowId := "f", loopId := none, hierPos := "1", context := [("y", .int 1)] })],
+           hx := [(("f", "h"), {}), (("g", "h2"), {})] } }
+
+/-- non-vacuity of the frame theorems: `G = {f}` is closed in a state with a bystander `g`, … -/
+theorem demo_closed : Closed (· = "f") demoVM2 := by
+  intro g x hg hl
+  subst hg
+  have : x = { flowId := "f", loopId := none, hierPos := "0" } := by
+    have h : OMap.lookup "f" demoVM2.r.fx = some { flowId := "f", loopId := none, hierPos := "0" } := rfl
+    rw [h] at hl; cases hl; rfl
+  subst this
+  exact ⟨fun c hc => absurd hc (by simp [kids, scopeFlows]), rfl⟩
+
+/-- … and the faulty advance, computed by the kernel, really leaves `g` alone while `f` ends STOPPED -/
+example : ∃ s', advanceHeadFront 4 [("f", "h")] demoVM2 = .ok [] s' ∧
+    findInst s'.ixs.ix "g" = findInst demoVM2.ixs.ix "g" ∧ OMap.lookup "g" s'.r.fx = OMap.lookup "g" demoVM2.r.fx ∧
+    (findInst s'.ixs.ix "f").map (·.status) = some .stopped :=
+  ⟨_, rfl, rfl, rfl, rfl⟩
+end NemoVerif.C10.VM
